@@ -1215,6 +1215,12 @@ def solve_sylvester_direct(
         if index[0] < len(eigenvalues) and index[1] < len(eigenvalues):
             return explicit_part(Y, index)
 
+        if index[0] == index[1]:
+            # The implicit block is never (selectively) diagonalized. With a
+            # selection on explicit blocks the generated code still evaluates
+            # this argument before `offdiag` discards it.
+            return zero
+
         if index[0] == len(eigenvalues):
             if greens_functions_left is None:
                 raise NotImplementedError(
